@@ -22,12 +22,26 @@ from ..harness import BUCKET, payload
 harness.install()
 
 
+class _SeqFuture(concurrent.futures.Future):
+    """creation-sequence hash: sets of these futures (concurrent.futures.as_completed) iterate deterministically"""
+
+    def __hash__(self):
+        return self._vt_h
+
+    def __eq__(self, other):
+        return self is other
+
+
 class InlineExecutor(concurrent.futures.Executor):
     def __init__(self, max_workers=None):
         pass
 
+    _n = 0
+
     def submit(self, fn, *args, **kwargs):
-        f = concurrent.futures.Future()
+        f = _SeqFuture()
+        InlineExecutor._n += 1
+        f._vt_h = InlineExecutor._n
         try:
             f.set_result(fn(*args, **kwargs))
         except BaseException as e:  # noqa
@@ -106,6 +120,7 @@ def run_frontend(scn, prefix=(), scratch=None, monitor=None):
     else:
         scratch.reset()
     random.seed(scn.get('seed', 0) * 7919 + 5)
+    InlineExecutor._n = 0
     s = Sched(prefix=prefix)
     R = {}
     f = scn.get('faults') or {}
